@@ -92,7 +92,8 @@ def run(chk):
             else:
                 fin_vals = [fin[1]]
             fout = o.value_at(fpath)
-            stores = sorted({e[2][-1][1] for e in o.trace if e[0] == "store" and e[2][:2] == C.fpath(1, "token")})
+            tr = o.trace[len(H0.trace):]
+            stores = sorted({e[2][-1][1] for e in tr if e[0] == "store" and e[2][:2] == C.fpath(1, "token")})
             if o.kind == "return":
                 rv = o.value_at((("L", 0),))
                 act = "return-" + (rv[2] if rv[0] == "var" else "?")
@@ -106,7 +107,7 @@ def run(chk):
                 table.setdefault(key, set()).add(val)
             # ---- R02.2 forms of the stored positions
             nz = forms.Normalizer(it, o)
-            for e in o.trace:
+            for e in tr:
                 if e[0] != "store" or e[2][:2] != C.fpath(1, "token"):
                     continue
                 fld = e[2][-1][1]
